@@ -47,7 +47,7 @@ func c09filter(c *Ctx, fn *ssa.Function, dataType string) {
 			return isFieldSel(x, "composite.APIFilteredSecretPublisher", "filter") || isFieldSel(x, "composite.SecretStoreConnectionPublisher", "filter")
 		})
 	}
-	var contains []ssa.CallInstruction
+	var contains, setHas []ssa.CallInstruction
 	for _, x := range cfgx.Calls(fn, nil) {
 		n := cfgx.CalleeName(x)
 		if i := strings.Index(n, "["); i > 0 {
@@ -56,8 +56,24 @@ func c09filter(c *Ctx, fn *ssa.Function, dataType string) {
 		if n == "slices.Contains" && len(cfgx.CallArgs(x)) == 2 && isFilter(cfgx.CallArgs(x)[0]) {
 			contains = append(contains, x)
 		}
+		// sets.New(filter...).Has(key)
+		if full := cfgx.CalleeName(x); strings.Contains(full, "util/sets.Set") && strings.HasSuffix(full, ").Has") {
+			if r := cfgx.Receiver(x); r != nil && flow.Default.Any(r, func(v ssa.Value) bool {
+				ci, ok := v.(*ssa.Call)
+				if !ok {
+					return false
+				}
+				cn := cfgx.CalleeName(ci)
+				if i := strings.Index(cn, "["); i > 0 {
+					cn = cn[:i]
+				}
+				return strings.HasSuffix(cn, "sets.New") && len(ci.Call.Args) == 1 && isFilter(ci.Call.Args[0])
+			}) {
+				setHas = append(setHas, x)
+			}
+		}
 	}
-	if store == nil || (mset == nil && len(contains) == 0) {
+	if store == nil || (mset == nil && len(contains) == 0 && len(setHas) == 0) {
 		c.R.Unknown(load.FuncName(fn)+": filter shape", c.pos(fn.Pos()), "expected the data store and a membership test of the configured filter (allow map or slices.Contains)")
 		return
 	}
@@ -82,6 +98,27 @@ func c09filter(c *Ctx, fn *ssa.Function, dataType string) {
 					c.R.Check(sameRange(lk.Index, store.Key), load.FuncName(fn)+": allow lookup key", c.pos(lk.Pos()), "the key looked up is the key stored", "the allow-list is consulted with a different key than the one stored")
 				}
 			}
+		}
+	}
+	for _, x := range setHas {
+		t, _ := cfgx.CallCondEdges(x)
+		allow = append(allow, t...)
+		c.R.Check(sameRange(cfgx.CallArgs(x)[0], store.Key), load.FuncName(fn)+": allow lookup key", c.pos(x.Pos()), "the key tested is the key stored", "the filter is consulted with a different key than the one stored")
+		// len(set)==0 / set.Len()==0 edges
+		for _, cf := range findCmps(fn, true, func(a, b ssa.Value) bool {
+			z, ok := cfgx.ConstInt(b)
+			if !ok || z != 0 {
+				return false
+			}
+			if ci, ok := a.(*ssa.Call); ok {
+				if bn, isB := ci.Call.Value.(*ssa.Builtin); isB && bn.Name() == "len" {
+					return true
+				}
+				return strings.Contains(cfgx.CalleeName(ci), "util/sets.Set") && strings.HasSuffix(cfgx.CalleeName(ci), ").Len")
+			}
+			return false
+		}) {
+			allow = append(allow, cf.Holds...)
 		}
 	}
 	for _, x := range contains {
@@ -291,6 +328,39 @@ func c09(c *Ctx) {
 						nData++
 						r, p, ok := flow.AccessPathC(st.Val)
 						src := flow.Root(underIface(cfgx.CallArgs(gets[0])[2]))
+						// or a fresh map filled, entry by entry and without skipping, from
+						// a range over the source secret's data
+						if mm, isMake := sole(st.Val).(*ssa.MakeMap); isMake && !(ok && p == "Data" && r == src) {
+							copied, n := true, 0
+							for _, bb := range pc.Blocks {
+								for _, in2 := range bb.Instrs {
+									mu, isMU := in2.(*ssa.MapUpdate)
+									if !isMU || sole(mu.Map) != ssa.Value(mm) {
+										continue
+									}
+									n++
+									fromSrc := false
+									for x := range flow.Strict.Back(mu.Value) {
+										if rg, isR := x.(*ssa.Range); isR {
+											if rr, rp, _ := flow.AccessPathC(rg.X); rp == "Data" && rr == src {
+												fromSrc = true
+											}
+										}
+									}
+									l := cfgx.LoopOf(mu.Block())
+									by := true
+									if l != nil {
+										by, _ = cfgx.LoopBypass(l, map[*ssa.BasicBlock]bool{mu.Block(): true}, nil, nil)
+									}
+									if !fromSrc || !sameRange(mu.Key, mu.Value) || by {
+										copied = false
+									}
+								}
+							}
+							if copied && n == 1 {
+								r, p, ok = src, "Data", true
+							}
+						}
 						c.R.Check(ok && p == "Data" && r == src, load.FuncName(pc)+": ts.Data = fs.Data", c.pos(st.Pos()), "the claim secret's data is the source secret's data", "the data written to the claim secret is not exactly the source secret's data")
 					}
 				}
